@@ -167,6 +167,21 @@ Theorem C09_enum_classes_distinct_or_shared : forall prefix ds tab errs,
 Proof. exact enum_classes_distinct_or_shared. Qed.
 Print Assumptions C09_enum_classes_distinct_or_shared.
 
+(* the same scope under literal_enums: true (LiteralEnumProperty.build: value SETS, tables keyed by the value itself) *)
+Theorem C09_literal_classes_distinct_or_shared : forall prefix ds tab errs,
+  model_decls_lit prefix ds = Some (tab, errs) ->
+  NoDup (map fst tab) /\
+  (forall c t, In (c, CEnum t) tab ->
+     exists p n vs, In (DEnum p n vs) ds /\ decl_class prefix (DEnum p n vs) = c /\ lit_table vs = Some t) /\
+  (forall d, In d ds -> In d errs \/ exists e, clookup (decl_class prefix d) tab = Some e) /\
+  (forall d1 d2 t1 t2, In d1 ds -> In d2 ds -> decl_class prefix d1 = decl_class prefix d2 ->
+     decl_table_g lit_table d1 = Some t1 -> decl_table_g lit_table d2 = Some t2 -> ~ In d1 errs -> ~ In d2 errs -> tbl_equiv t1 t2) /\
+  (forall n d2 t2, In (DModel n) ds -> In d2 ds -> decl_class prefix (DModel n) = decl_class prefix d2 ->
+     decl_table_g lit_table d2 = Some t2 -> In (DModel n) errs \/ In d2 errs) /\
+  (forall d, In d errs -> In d ds).
+Proof. exact literal_classes_distinct_or_shared. Qed.
+Print Assumptions C09_literal_classes_distinct_or_shared.
+
 (* (e) model attributes of a schema composed with allOf: merging (Merge.v, C15) x python-name conflict resolution (ProcProps.v) *)
 Require Import OPC.PyLit OPC.Merge OPC.ProcProps OPC.ProcPropsThm.
 
